@@ -447,7 +447,7 @@ func c12(run *ev.Run, tier string) {
 	}
 	for x := 0; x < ncold; x++ {
 		jobs = append(jobs,
-			job{16, 3 * x, 1, 1, fmt.Sprintf("cold-signing-%d", x)},      // config 1: signed, scenario (c) first
+			job{16, 3 * x, 1, 1, fmt.Sprintf("cold-signing-%d", x)},       // config 1: signed, scenario (c) first
 			job{8, 3*x + 1, 0, 1, fmt.Sprintf("cold-changelog-%d", x)},    // config 0: changelog, scenario (c) first
 			job{16, 3 * x, 3, 1, fmt.Sprintf("cold-no-maintainer-%d", x)}) // config 3: no maintainer, scenario (a) first
 	}
@@ -567,6 +567,80 @@ func c12(run *ev.Run, tier string) {
 			run.Sample(map[string]any{"gomaxprocs": g, "events": rep.Events[:3], "command": cmdline})
 		}
 	}
+	// whole processes: the command line tool started for all formats at the same moment,
+	// writing into one directory - targets that differ only in their extension, and
+	// conventional names inside one target directory. Each process leaves exactly the
+	// package a run on its own leaves.
+	cliProcs, cliRounds := 0, 6
+	if bin := nfpmBin(run); bin != "" {
+		cdir := newWorkDir("c12-cli")
+		pay := filepath.Join(cdir, "payload.bin")
+		_ = os.WriteFile(pay, (&gen.Node{Size: 700 << 10, Seed: 99}).Content(), 0o644)
+		y := "name: together\narch: all\nversion: 1.0.0\nmaintainer: \"T <t@example.com>\"\ndescription: d\nmtime: 2017-07-14T02:40:00Z\nrpm:\n  buildhost: verif-host\ncontents:\n  - src: " + pay + "\n    dst: /opt/together/payload.bin\n"
+		cfgp := filepath.Join(cdir, "nfpm.yaml")
+		_ = os.WriteFile(cfgp, []byte(y), 0o644)
+		env := []string{"PATH=" + os.Getenv("PATH"), "HOME=" + cdir}
+		alone := map[string][]byte{}
+		names := map[string]string{}
+		for _, f := range formats {
+			d := filepath.Join(cdir, "alone-"+f)
+			_ = os.MkdirAll(d, 0o755)
+			if _, _, code, err := runCmd(nil, cdir, env, bin, "package", "-f", cfgp, "-p", f, "-t", d); err != nil || code != 0 {
+				run.Inconclusive("the nfpm binary cannot build " + f + " on its own")
+				continue
+			}
+			if es, _ := os.ReadDir(d); len(es) == 1 {
+				names[f] = es[0].Name()
+				alone[f], _ = os.ReadFile(filepath.Join(d, es[0].Name()))
+			}
+		}
+		for r := 0; r < cliRounds && len(alone) == len(formats); r++ {
+			how := []string{"targets-differing-in-extension-only", "one-target-directory"}[r%2]
+			d := filepath.Join(cdir, fmt.Sprintf("together-%d", r))
+			_ = os.MkdirAll(d, 0o755)
+			type proc struct {
+				f      string
+				cmd    *exec.Cmd
+				out    *bytes.Buffer
+				target string
+			}
+			var procs []*proc
+			for _, f := range formats {
+				target, arg := filepath.Join(d, "pkg."+f), filepath.Join(d, "pkg."+f)
+				if how == "one-target-directory" {
+					target, arg = filepath.Join(d, names[f]), d
+				}
+				c := exec.Command(bin, "package", "-f", cfgp, "-p", f, "-t", arg)
+				c.Dir, c.Env = cdir, env
+				b := &bytes.Buffer{}
+				c.Stdout, c.Stderr = b, b
+				procs = append(procs, &proc{f, c, b, target})
+			}
+			for _, p := range procs {
+				_ = p.cmd.Start()
+			}
+			for _, p := range procs {
+				err := p.cmd.Wait()
+				cliProcs++
+				run.Case(fmt.Sprintf("cli-processes-at-once|%s|%s", how, p.f), true)
+				got, _ := os.ReadFile(p.target)
+				if err != nil {
+					run.Violate("C12/"+p.f+"/concurrent-process-failed/"+how, map[string]any{"round": r, "error": err.Error(), "output": ev.Short(p.out.String(), 300)})
+				} else if !bytes.Equal(got, alone[p.f]) {
+					run.Violate("C12/"+p.f+"/bytes-differ-from-sequential/processes-"+how, map[string]any{"round": r, "len": len(got), "len_alone": len(alone[p.f])})
+				}
+			}
+			if es, _ := os.ReadDir(d); len(es) != len(formats) {
+				var left []string
+				for _, e := range es {
+					left = append(left, e.Name())
+				}
+				run.Violate("C12/files-other-than-the-packages-left-by-concurrent-processes/"+how, map[string]any{"round": r, "files": left})
+			}
+		}
+		removeWorkDir(cdir)
+	}
+	run.Set("nfpm_processes_run_at_once", cliProcs)
 	var sets []string
 	for s := range overlapSets {
 		sets = append(sets, s)
